@@ -5,7 +5,7 @@ import z3
 from . import theory as T
 from . import tys as TY
 from .sv import (SV, NONE, NOTIMPL, MObj, Frame, Closure, BoundMethod, BuiltinRef, OutOfSubset, SymRaise, ReturnEx,
-                 StaleContract, mk_int, mk_bool, mk_real, mk_str, mk_bytes)
+                 StaleContract, PathEnd, mk_int, mk_bool, mk_real, mk_str, mk_bytes)
 from .interp import is_num, as_int_term, as_real_term, const_int
 
 DROPPED_CALL_PREFIXES = ('logger.', 'logging.')
@@ -49,9 +49,9 @@ def eval_call(I, node, frame):
             try:
                 try:
                     b = I.truth(I.eval(node.args[1], frame))
-                except (OutOfSubset, StaleContract, SymRaise):
+                except (OutOfSubset, StaleContract, SymRaise, PathEnd):
                     if not I.path._feasible(z3.BoolVal(True)):
-                        b = z3.BoolVal(True)     # consequent ill-formed only where the antecedent is impossible
+                        b = z3.BoolVal(True)     # consequent ill-formed / dead only where the antecedent is impossible
                     else:
                         raise
             finally:
@@ -236,6 +236,31 @@ def apply_dunder(I, name, a, b, node):
     return compare(I, DUNDER_OPS[name](), a, b, node)
 
 
+def apply_dunder_symbolic(I, obj, name, args, node):
+    """getattr(x, name)(y) / getattr(operator, name)(x, y) with a symbolic comparison-dunder name: the result is the
+    ite chain over the six names; any other name raises AttributeError (one decision)"""
+    from .ops import compare
+    names = list(DUNDER_OPS)
+    valid = z3.Or(*[name.t == z3.StringVal(n) for n in names])
+    if not I.spec and not I.path.decide(valid):
+        I.raise_('AttributeError', node)
+    if obj.kind == 'ext':
+        a, b = args
+        via_operator_module = True
+    else:
+        a, b = obj, args[0]
+        via_operator_module = False
+    if not via_operator_module:
+        probe = apply_dunder(I, '__eq__', a, b, node)
+        if probe.kind == 'notimpl':
+            return NOTIMPL
+    results = [compare(I, DUNDER_OPS[n](), a, b, node) for n in names]
+    t = results[-1].t
+    for n, r in reversed(list(zip(names, results))[:-1]):
+        t = z3.If(name.t == z3.StringVal(n), r.t, t)
+    return mk_bool(t)
+
+
 def operator_module_call(I, name, args, node):
     """operator.__lt__(a, b) etc.: the ordinary Python operator (reflected methods included)"""
     from .ops import compare
@@ -390,6 +415,8 @@ def call_builtin(I, f, args, kwargs, node):
         return wrap_term(I, sig[-1], fn(*ts))
     if name.startswith('dunder:'):
         return apply_dunder(I, name[7:], slf, args[0], node)
+    if name == 'dunder_sym':
+        return apply_dunder_symbolic(I, slf.t[0], slf.t[1], args, node)
     if name.startswith('builtin_new:'):
         base = {'int': 'int', 'float': 'real', 'str': 'str', 'bytes': 'bytes'}[name.split(':')[1]]
         cls_sv, val = args[0], args[1]
@@ -612,6 +639,10 @@ def b_getattr(I, slf, args, kw, node):
     obj, name = args[0], args[1]
     s = literal_str(name)
     if s is None:
+        # getattr(x, <symbolic name>): supported for the comparison dunders, resolved without forking
+        if name.kind == 'str' and (obj.kind in ('int', 'bool', 'real', 'str', 'bytes') or
+                                   (obj.kind == 'ext' and obj.t == 'operator')):
+            return SV('func', BuiltinRef('dunder_sym', SV('tuple', (obj, name))))
         I.oos(node, "getattr with a symbolic attribute name")
     try:
         return I.get_attr(obj, s, node)
